@@ -1527,7 +1527,10 @@ namespace bloch::runtime {
             return;
         obj->destroyed = true;
         if (runUserDestructor && obj->cls) {
+            // A destructor often runs while a 'return' of the enclosing function is propagating:
+            // it executes as ordinary code, and the pending return (flag and value) survives it.
             bool savedReturn = m_hasReturn;
+            Value savedReturnValue = m_returnValue;
             for (RuntimeClass* cur = obj->cls; cur; cur = cur->base) {
                 if (!cur->destructorDecl || !cur->destructorDecl->body)
                     continue;
@@ -1545,6 +1548,7 @@ namespace bloch::runtime {
                 thisVal.objectValue = std::shared_ptr<Object>(obj, [](Object*) {});
                 thisVal.className = cur->name;
                 m_env.back()["this"] = {thisVal, false, true};
+                m_hasReturn = false;
                 for (auto& stmt : cur->destructorDecl->body->statements) {
                     exec(stmt.get());
                     if (m_hasReturn)
@@ -1557,6 +1561,7 @@ namespace bloch::runtime {
                 m_currentClassCtx = prevClass;
             }
             m_hasReturn = savedReturn;
+            m_returnValue = savedReturnValue;
         }
         // Reset tracked qubits
         if (obj->cls) {
